@@ -135,6 +135,7 @@ func verifyProof(persistTrie *PersistTrie, block uint64, ind *int) (Node, []byte
 				n.Children[i] = newNode
 				n.dirty = true
 				n.CalcHash()
+				n.dirty = false // hashed: the parent must not hash this subtree again
 				return n, val, nil
 			}
 			block -= child.Weight()
@@ -151,6 +152,7 @@ func verifyProof(persistTrie *PersistTrie, block uint64, ind *int) (Node, []byte
 		n.value = newNode
 		n.dirty = true
 		n.CalcHash()
+		n.dirty = false // hashed: the parent must not hash this subtree again
 		return n, val, nil
 	case *valueNode:
 		if block > n.Weight() {
@@ -158,6 +160,7 @@ func verifyProof(persistTrie *PersistTrie, block uint64, ind *int) (Node, []byte
 		}
 		n.dirty = true
 		n.CalcHash()
+		n.dirty = false
 		return n, n.value, nil
 	}
 	return nil, nil, errors.New("invalid node")
